@@ -375,6 +375,36 @@ pub fn run_parts_one_reader(which: Which, w: &[u8], parts: &[usize]) -> Run {
     Run { items, snapshot: dec.snapshot(), problems }
 }
 
+/// All parts out of ONE reader as successive `fill_buf` slices, read with `decode_into` (called again as long as the
+/// reader has more to hand out).
+pub fn run_parts_one_reader_into(which: Which, w: &[u8], parts: &[usize]) -> Run {
+    let mut dec = AnyDec::new(which);
+    let mut items = Vec::new();
+    let mut problems = Vec::new();
+    let mut reader = SlicedReader::new(w, parts);
+    let budget = 2 * (w.len() + 64) + 8 + 2 * parts.len();
+    let mut calls = 0;
+    loop {
+        calls += 1;
+        if calls > budget {
+            problems.push("decode_into does not terminate (call budget exceeded)".into());
+            break;
+        }
+        match dec.decode_into(&mut reader, &mut items) {
+            Ok(_) => {
+                if reader.exhausted() {
+                    break;
+                }
+            }
+            Err(e) => {
+                problems.push(format!("decode_into returned error {e}"));
+                break;
+            }
+        }
+    }
+    Run { items, snapshot: dec.snapshot(), problems }
+}
+
 /// Like `run_parts`, but every read is handled with ONE `decode` call followed by `decode_into` for whatever is
 /// left of it (the two entry points of the `Decoder` trait used in turn on one decoder).
 pub fn run_parts_mixed_api(which: Which, w: &[u8], parts: &[usize]) -> Run {
@@ -660,6 +690,27 @@ pub fn check_string(
                         detail: format!(
                             "reads {:?} end in {:?} but one reader handing out slices {:?} ends in {:?}",
                             partitions[0], f.snapshot, parts, one.snapshot
+                        ),
+                    });
+                }
+            }
+        }
+        // ... and read with `decode_into`
+        if parts.iter().filter(|p| **p > 0).count() >= 2 && parts.len() <= 3 && which != Which::Utf8 {
+            let one = catch(|| run_parts_one_reader_into(which, w, parts))?;
+            for p in &one.problems {
+                out.push(Problem {
+                    kind: format!("totality:one-reader-decode_into:{}", squash(p)),
+                    detail: format!("{p} (decode_into on one reader handing out slices {:?})", parts),
+                });
+            }
+            if let Some(f) = &first {
+                if f.items != one.items {
+                    out.push(Problem {
+                        kind: "chunking:events-differ:one-reader-decode_into".into(),
+                        detail: format!(
+                            "reads {:?} give {:?} but decode_into on one reader handing out slices {:?} gives {:?}",
+                            partitions[0], f.items, parts, one.items
                         ),
                     });
                 }
